@@ -90,6 +90,7 @@ type FnExec struct {
 	ifaceType     map[Term]types.Type // interface value term -> pointee type of the boxed pointer
 	curArgTypes   []types.Type
 	owned         map[Term]bool
+	cbInfo        map[*ssa.Function]*cbState
 	curInstr      ssa.Instruction
 }
 
@@ -298,6 +299,11 @@ func valKey(v Val) string {
 		return "ph:" + x.Prefix + "@" + x.Base
 	}
 	return fmt.Sprintf("?%T", v)
+}
+
+type cbState struct {
+	called Term // Bool: the closure was called at least once by the callee
+	last   Val  // result of its last call
 }
 
 // typedRef: objects of different struct types have different ids.
